@@ -1,4 +1,6 @@
 import Nv.Proofs.C03ScanTop
+import Nv.Proofs.C03Get
+import Nv.Proofs.C03Cow3
 /-!
 C03 — property theorems for the B-tree (`ds/tree/btree`) and its locked wrapper (`ds/tree`).
 Model: `Nv.Model.C03`; specification: `Nv.Spec.C03` (a strictly sorted item list).
@@ -93,6 +95,208 @@ theorem bt_iterwalk_spec (c : Cfg) (hc : Proved c) (t : Tree) (h : t.ok = true) 
 
 theorem bt_iterwalk_zero_and_empty (c : Cfg) (t : Tree) (a : ScanArgs) (k : Int) (f : Item → Bool) :
     iterWalk c t a k f 0 = .items [] := by simp [iterWalk]
+
+/-! ### ordered-set equivalence and balance: every write operation -/
+
+/-- `ReplaceOrInsert`: the in-order list becomes the sorted set with `x` stored (replacing an item with the
+    same key), the item returned is the one replaced, and the structural invariant (sorted, degree bounds
+    of every node, all leaves at one depth, `length` = item count) is kept — for every degree ≥ 2. -/
+theorem bt_insert_refines (t : Tree) (x : Item) (h : t.ok = true) :
+    (t.replaceOrInsert x).1.inorder = specInsert t.inorder x ∧
+    (t.replaceOrInsert x).2 = specFind t.inorder x.key ∧
+    (t.replaceOrInsert x).1.ok = true :=
+  let r := tree_insert_spec t x h
+  ⟨r.1, r.2.1, r.2.2.1⟩
+
+/-- `Delete`: removes exactly the item with the key (if any) and returns it; invariant kept. -/
+theorem bt_delete_refines (t : Tree) (k : Int) (h : t.ok = true) :
+    (t.deleteItem (.item k)).1.inorder = specDelete t.inorder k ∧
+    (t.deleteItem (.item k)).2 = specFind t.inorder k ∧
+    (t.deleteItem (.item k)).1.ok = true :=
+  let r := tree_delete_spec t (.item k) h
+  ⟨r.1, r.2.1, r.2.2.1⟩
+
+/-- `DeleteMin` / `DeleteMax` -/
+theorem bt_delete_min_max (t : Tree) (h : t.ok = true) :
+    (t.deleteItem .min).1.inorder = t.inorder.drop 1 ∧ (t.deleteItem .min).2 = t.inorder.head? ∧
+    (t.deleteItem .min).1.ok = true ∧
+    (t.deleteItem .max).1.inorder = t.inorder.dropLast ∧ (t.deleteItem .max).2 = t.inorder.getLast? ∧
+    (t.deleteItem .max).1.ok = true :=
+  let a := tree_delete_spec t .min h
+  let b := tree_delete_spec t .max h
+  ⟨a.1, a.2.1, a.2.2.1, b.1, b.2.1, b.2.2.1⟩
+
+theorem specDelete_of_not_found (l : List Item) (k : Int) (h : specFind l k = none) : specDelete l k = l := by
+  apply specDelete_none
+  intro a ha hk
+  simp only [specFind, List.find?_eq_none] at h
+  exact h a ha (by simpa using hk)
+
+/-- the wrapper's `Update(old, new)`: only if `old` is present, it is removed and `new` stored -/
+theorem bt_update_refines (t : Tree) (old : Int) (new : Item) (h : t.ok = true) :
+    (wUpdate t old new).1.inorder =
+      (if (specFind t.inorder old).isSome then specInsert (specDelete t.inorder old) new else t.inorder) ∧
+    (wUpdate t old new).2 = (specFind t.inorder old).isSome ∧
+    (wUpdate t old new).1.ok = true := by
+  obtain ⟨d1, d2, d3⟩ := bt_delete_refines t old h
+  simp only [wUpdate]
+  cases hf : specFind t.inorder old with
+  | none =>
+    rw [hf] at d2
+    simp [d2, d1, d3, specDelete_of_not_found _ _ hf]
+  | some y =>
+    rw [hf] at d2
+    obtain ⟨i1, _, i3⟩ := bt_insert_refines _ new d3
+    simp [d2, i1, d1, i3]
+
+/-- the wrapper's `UpdateOrInsert(old, new)`: `old` is removed if present, `new` is always stored -/
+theorem bt_update_or_insert_refines (t : Tree) (old : Int) (new : Item) (h : t.ok = true) :
+    (wUpdateOrInsert t old new).1.inorder = specInsert (specDelete t.inorder old) new ∧
+    (wUpdateOrInsert t old new).2 = (specFind t.inorder old).isSome ∧
+    (wUpdateOrInsert t old new).1.ok = true := by
+  obtain ⟨d1, d2, d3⟩ := bt_delete_refines t old h
+  obtain ⟨i1, _, i3⟩ := bt_insert_refines _ new d3
+  simp only [wUpdateOrInsert]
+  exact ⟨by rw [i1, d1], by rw [d2], i3⟩
+
+/-- `Get`, `Has` -/
+theorem bt_get (t : Tree) (k : Int) (h : t.ok = true) : t.get k = specFind t.inorder k := tree_get_spec t k h
+
+/-- `Min`, `Max` -/
+theorem bt_min_max (t : Tree) (h : t.ok = true) : t.min = t.inorder.head? ∧ t.max = t.inorder.getLast? :=
+  tree_min_max_spec t h
+
+/-- each key holds the most recently stored item; other keys are unaffected -/
+theorem bt_most_recent (t : Tree) (x : Item) (k : Int) (h : t.ok = true) :
+    (t.replaceOrInsert x).1.get x.key = some x ∧
+    (k ≠ x.key → (t.replaceOrInsert x).1.get k = t.get k) := by
+  obtain ⟨i1, _, i3⟩ := bt_insert_refines t x h
+  constructor
+  · rw [bt_get _ _ i3, i1]; exact specFind_specInsert x _ (bt_inv_sorted t h)
+  · intro hk; rw [bt_get _ _ i3, i1, bt_get _ _ h]; exact specFind_specInsert_ne x k hk _
+
+/-- the operations of a history -/
+inductive Op
+  | insert (x : Item) | delete (k : Int) | deleteMin | deleteMax
+  | update (old : Int) (new : Item) | upsert (old : Int) (new : Item) | clear
+
+def applyOp (t : Tree) : Op → Tree
+  | .insert x => (t.replaceOrInsert x).1
+  | .delete k => (t.deleteItem (.item k)).1
+  | .deleteMin => (t.deleteItem .min).1
+  | .deleteMax => (t.deleteItem .max).1
+  | .update old new => (wUpdate t old new).1
+  | .upsert old new => (wUpdateOrInsert t old new).1
+  | .clear => t.clear
+
+def specOp (l : List Item) : Op → List Item
+  | .insert x => specInsert l x
+  | .delete k => specDelete l k
+  | .deleteMin => l.drop 1
+  | .deleteMax => l.dropLast
+  | .update old new => if (specFind l old).isSome then specInsert (specDelete l old) new else l
+  | .upsert old new => specInsert (specDelete l old) new
+  | .clear => []
+
+theorem clear_ok (t : Tree) (h : t.ok = true) : t.clear.ok = true ∧ t.clear.inorder = [] := by
+  unfold Tree.ok at h ⊢
+  simp only [Bool.and_eq_true, decide_eq_true_eq] at h
+  simp [Tree.clear, Tree.inorder, h.1]
+
+/-- the invariant is preserved by every operation, and the in-order list follows the sorted set -/
+theorem bt_inv_preserved (t : Tree) (op : Op) (h : t.ok = true) :
+    (applyOp t op).ok = true ∧ (applyOp t op).inorder = specOp t.inorder op := by
+  cases op with
+  | insert x => exact ⟨(bt_insert_refines t x h).2.2, (bt_insert_refines t x h).1⟩
+  | delete k => exact ⟨(bt_delete_refines t k h).2.2, (bt_delete_refines t k h).1⟩
+  | deleteMin => exact ⟨(bt_delete_min_max t h).2.2.1, (bt_delete_min_max t h).1⟩
+  | deleteMax => exact ⟨(bt_delete_min_max t h).2.2.2.2.2, (bt_delete_min_max t h).2.2.2.1⟩
+  | update old new => exact ⟨(bt_update_refines t old new h).2.2, (bt_update_refines t old new h).1⟩
+  | upsert old new => exact ⟨(bt_update_or_insert_refines t old new h).2.2, (bt_update_or_insert_refines t old new h).1⟩
+  | clear => exact clear_ok t h
+
+theorem new_ok (d : Nat) (hd : 2 ≤ d) : (Tree.new d).ok = true ∧ (Tree.new d).inorder = [] := by
+  simp [Tree.new, Tree.ok, Tree.inorder, hd]
+
+/-- after ANY sequence of operations from the empty tree of any degree ≥ 2, the tree satisfies the structural
+    invariant and contains exactly what the sorted set contains (so every scan theorem above applies) -/
+theorem bt_history (d : Nat) (hd : 2 ≤ d) (ops : List Op) :
+    (ops.foldl applyOp (Tree.new d)).ok = true ∧
+    (ops.foldl applyOp (Tree.new d)).inorder = ops.foldl specOp [] := by
+  have gen : ∀ (ops : List Op) (t : Tree), t.ok = true →
+      (ops.foldl applyOp t).ok = true ∧ (ops.foldl applyOp t).inorder = ops.foldl specOp t.inorder := by
+    intro ops
+    induction ops with
+    | nil => intro t h; exact ⟨h, rfl⟩
+    | cons op ops ih =>
+      intro t h
+      have p := bt_inv_preserved t op h
+      have := ih _ p.1
+      simp only [List.foldl_cons]
+      rw [← p.2]; exact this
+  have := gen ops (Tree.new d) (new_ok d hd).1
+  rw [(new_ok d hd).2] at this
+  exact this
+
+/-- the wrapper's tree (degree from the source) starts valid -/
+theorem bt_wrapper_new (c : Cfg) (hc : Proved c) : (wNew c).ok = true := (new_ok _ hc.2.2.2.2.2).1
+
+/-! ### clone isolation (layer B: node store with owner tags and the shared free list) -/
+
+/-- **Frame theorem**: a write (`ReplaceOrInsert`, `Delete`, `DeleteMin`, `DeleteMax`) through the tree tagged
+    `t.cow` changes no store cell that existed before, is not owned by `t.cow`, and is not parked in the free
+    list — every mutation is preceded by `mutableFor`, every reused cell comes from the free list. -/
+theorem bt_cow_frame (t : Cow.HTree) (op : Cow.WOp) (H : Cow.Heap) (id : Nat) (hid : id < H.size)
+    (htag : H.tag id ≠ some t.cow) (hfree : id ∉ H.free) :
+    ((Cow.applyW t op) H).2.get id = H.get id := Cow.frame_write t op H id hid htag hfree
+
+/-
+Full statement (NOT proved; kept for the record):
+
+  theorem bt_clone_isolated : for every program of `Clone`s and writes over any number of handles, in any
+    interleaving, a write through one handle leaves the in-order list of every other handle unchanged.
+
+What is proved below is the part that does not need the writer's own reachable cells to be tracked:
+after a `Clone` (two fresh tags) every root whose cells are live is separated from both new tags
+(`clone_sep`); and ANY NUMBER of writes by ONE tree leave every reading — at every depth — of a root
+separated from the writer's tag unchanged, and keep it separated (so writes to a clone are never visible in
+the tree it was cloned from, and vice versa). Missing for the full statement: that the writer's own root
+stays separated from the other handles' tags and from the free list after its write (closure of the set of
+cells the writer can reach — needs a no-aliasing invariant for owned cells), which is what lets the two
+sides alternate; and the refinement layer B → layer A for the writer itself (validated on every explored
+script by the T-observables `owned` and `cons`, not proved).
+-/
+theorem bt_clone_isolated_partial (ops : List Cow.WOp) (t : Cow.HTree) (H : Cow.Heap) (r : Nat)
+    (hsep : Cow.Sep H t.cow r) (fuel : Nat) :
+    Cow.absNode (Cow.runW t H ops).2 fuel r = Cow.absNode H fuel r ∧
+    Cow.heightB (Cow.runW t H ops).2 fuel r = Cow.heightB H fuel r :=
+  Cow.writes_isolated ops t H r hsep fuel
+
+/-- one write keeps a separated root separated (what makes the theorem above chain) -/
+theorem bt_cow_sep_preserved (t : Cow.HTree) (op : Cow.WOp) (H : Cow.Heap) (r : Nat) (hsep : Cow.Sep H t.cow r) :
+    Cow.Sep ((Cow.applyW t op) H).2 ((Cow.applyW t op) H).1.1.cow r :=
+  (Cow.write_isolated t op H r hsep).2
+
+/-- `Clone` establishes separation in both directions -/
+theorem bt_clone_separates (H : Cow.Heap) (t : Cow.HTree) (c1 c2 : Nat) (r : Nat)
+    (hfresh : ∀ id, H.tag id ≠ some c1 ∧ H.tag id ≠ some c2)
+    (hlive : ∀ id, Cow.Reach H r id → id < H.size ∧ id ∉ H.free) :
+    Cow.Sep H (Cow.cloneB t c1 c2).1.cow r ∧ Cow.Sep H (Cow.cloneB t c1 c2).2.cow r :=
+  Cow.clone_sep H t c1 c2 r hfresh hlive
+
+/-- a concrete clone program on the store: build 1..7, clone, write to the clone; the original's cells are
+    untouched while the clone owns the copied path -/
+def cowDemo : Cow.HTree × Cow.HTree × Cow.Heap :=
+  let b0 := [1, 2, 3, 4, 5, 6, 7].foldl (fun (s : Cow.HTree × Cow.Heap) (k : Int) =>
+      let r := Cow.replaceOrInsertB s.1 ⟨k, k.toNat⟩ s.2; (r.1.1, r.2)) (⟨2, none, 0, 0⟩, Cow.Heap.init 32)
+  let c := Cow.cloneB b0.1 1 2
+  let w := Cow.replaceOrInsertB c.2 ⟨4, 400⟩ b0.2
+  let w2 := Cow.deleteItemB w.1.1 (.item 1) w.2
+  (c.1, w2.1.1, w2.2)
+
+example : (cowDemo.1.inorder cowDemo.2.2).map (·.val) = [1, 2, 3, 4, 5, 6, 7] := by decide +kernel
+example : (cowDemo.2.1.inorder cowDemo.2.2).map (·.val) = [2, 3, 400, 5, 6, 7] := by decide +kernel
+example : cowDemo.1.owned cowDemo.2.2 = (0, 4) ∧ (cowDemo.2.1.owned cowDemo.2.2).1 > 0 := by decide +kernel
 
 /-! ### non-vacuity, and witnesses that `Proved` is tight -/
 
